@@ -27,7 +27,7 @@ EXPLANATION = ("proved on the executable model, for all traces / weights / thres
                "builder), hence level 'other'; those clauses are decided by the correspondence and the direct oracle only")
 BUDGET = {"quick": 55, "thorough": 420}
 SEARCH_BUDGET = 60
-RULE = ("mixtures of trees over one small data set (2..7 points quick / ..9 thorough, 1..10 trees: copies and one-point "
+RULE = ("mixtures of trees over one small data set (2..7 points quick / ..10 thorough, 1..10 / ..20 trees: copies and one-point "
         "perturbations of 1-2 base trees plus unrelated random trees, outliers in a third of them), counts and weighted mode "
         "(dyadic weights, normalised exactly as write_consensus_results does), thresholds 1/2, 3/5, 3/4, 9/10, 1; all pairs and "
         "sampled (thorough: all) triples of the 26 trees on 3 points; real write_consensus_results on gzip-pickled synthetic "
@@ -202,17 +202,17 @@ def small_trees():
 def cases(tier, rnd):
     out = []
     quick = tier == "quick"
-    n_mix = 420 if quick else 5000
+    n_mix = 420 if quick else 40000
     for i in range(n_mix):
-        n = rnd.randint(2, 7 if quick else 9)
-        T = rnd.choice([1, 2, 2, 3, 4, 4, 5, 6, 8, 10])
+        n = rnd.randint(2, 7 if quick else 10)
+        T = rnd.choice([1, 2, 2, 3, 4, 4, 5, 6, 8, 10] + ([] if quick else [12, 15, 20]))
         weighted = i % 2 == 1
         c = {"kind": "mix", "n": n, "dseed": rnd.randrange(1 << 30), "trees": gen_mixture(rnd, n, T, outliers=(i % 3 == 0)),
              "mode": "weighted" if weighted else "counts", "theta": THETAS[(i // 2) % len(THETAS)]}
         if weighted:
             c["weights"] = gen_weights(rnd, T)
         out.append(c)
-    for i in range(60 if quick else 600):
+    for i in range(60 if quick else 4000):
         n = rnd.randint(4, 7 if quick else 9)
         trees = gen_rotations(rnd, n)
         c = {"kind": "mix", "n": n, "dseed": rnd.randrange(1 << 30), "trees": trees, "mode": "counts",
@@ -231,7 +231,7 @@ def cases(tier, rnd):
         for th in (["1/2"] if quick else ["1/2", "3/5"]):
             out.append({"kind": "mix", "n": 3, "dseed": 7, "mode": "counts", "theta": th,
                         "trees": [{"forest": st[i][0], "outs": st[i][1]} for i in combo]})
-    for i in range(24 if quick else 300):
+    for i in range(24 if quick else 2000):
         n = rnd.randint(2, 6)
         chains = []
         for _ in range(rnd.randint(1, 3)):
@@ -239,7 +239,7 @@ def cases(tier, rnd):
             chains.append([dict(t, p=fr(Fraction(rnd.randint(1, 16), 16))) for t in gen_mixture(rnd, n, T, outliers=(i % 3 == 0))])
         out.append({"kind": "trace", "n": n, "dseed": rnd.randrange(1 << 30), "chains": chains,
                     "wtype": "counts" if i % 2 == 0 else "joint-likelihood", "theta": THETAS[(i // 2) % len(THETAS)]})
-    for i in range(40 if quick else 500):
+    for i in range(40 if quick else 3000):
         n = rnd.randint(2, 6)
         T = rnd.choice([2, 3, 4, 5, 6])
         trees = gen_mixture(rnd, n, T, outliers=(i % 4 == 0))
@@ -465,6 +465,11 @@ def check_mix(ctx, case):
         oracle(ctx, case, sup, theta, n, r["built"], r["err"], "process_trace.consensus.get_consensus_tree")
 
     # ---- correspondence with the model
+    if expect is None and not in_domain:
+        # whether the code raises depends on the iteration order of Python sets (only possible outside the domain)
+        ctx.stat("order_dependent_skipped")
+        ctx.done(case, nontrivial=False)
+        return
     try:
         ans = ctx.ask(req)
         merr = None
@@ -478,11 +483,6 @@ def check_mix(ctx, case):
         elif expect == "keyerror" and not (isinstance(r["err"], KeyError) and "KeyError" in merr):
             ctx.corr_fail(case, "different errors", [repr(r["err"]), merr])
         ctx.stat("both_raise")
-        ctx.done(case, nontrivial=False)
-        return
-    if expect is None:
-        # outcome depends on the iteration order of Python sets (only possible outside the domain)
-        ctx.stat("order_dependent_skipped")
         ctx.done(case, nontrivial=False)
         return
     if merr is not None:
